@@ -1,1 +1,83 @@
-fn main() { println!("ok"); }
+mod drivers;
+mod world;
+
+use std::io::Write;
+
+use mdk_core::MdkConfig;
+use serde_json::{Value, json};
+use world::World;
+
+pub struct Recorder {
+    pub out: Box<dyn Write>,
+    pub i: u64,
+}
+impl Recorder {
+    pub fn emit(&mut self, mut v: Value) {
+        self.i += 1;
+        v.as_object_mut().unwrap().insert("i".into(), json!(self.i));
+        writeln!(self.out, "{}", v).unwrap();
+    }
+}
+
+pub fn meta(clients: &[&str], groups: &[&str], sql: &[&str], cfg: &MdkConfig) -> Value {
+    let dev: Vec<String> = std::env::var("VERIF_DEV").unwrap_or_default().split(',').filter(|x| !x.is_empty()).map(|x| x.to_string()).collect();
+    json!({"op":"Meta","clients":clients,"groups":groups,"sql":sql,
+           "retention":cfg.epoch_snapshot_retention,"lookback":5,"maxpast":cfg.max_past_epochs,
+           "dev":dev,
+           "views":{"core":["st","mls","chain","members","pend","props","mdata","rec","res","out","notif"]}})
+}
+
+fn smoke(backend: &str) {
+    let mut w = World::new(MdkConfig::default());
+    for c in ["c1", "c2", "c3"] {
+        w.add_client(c, backend);
+    }
+    let mut r = Recorder { out: Box::new(std::io::stdout()), i: 0 };
+    r.emit(meta(&["c1", "c2", "c3"], &["g1"], if backend == "sql" { &["c1", "c2", "c3"] } else { &[] }, &MdkConfig::default()));
+    let v = w.op_create("c1", "g1", &["c2".into(), "c3".into()], &["c1".into(), "c2".into()]);
+    r.emit(v);
+    let v = w.op_commit("c1", "g1", "rename", &json!("n1"), 5, 2);
+    r.emit(v);
+    let v = w.op_commit("c2", "g1", "rename", &json!("n2"), 4, 1);
+    r.emit(v);
+    let v = w.op_send("c3", "g1", 3, 0, 3);
+    r.emit(v);
+    for (c, e) in [("c3", "e1"), ("c3", "e2"), ("c1", "e1"), ("c1", "e2"), ("c2", "e2"), ("c2", "e1"), ("c1", "e3"), ("c2", "e3"), ("c3", "e3")] {
+        let v = w.op_deliver(c, e, 9, 0);
+        r.emit(v);
+    }
+}
+
+fn main() {
+    let args: Vec<String> = std::env::args().collect();
+    match args.get(1).map(|s| s.as_str()) {
+        Some("smoke") => smoke(args.get(2).map(|s| s.as_str()).unwrap_or("mem")),
+        Some("rand") => {
+            // rand <out> key=value...
+            let out = args.get(2).expect("out path");
+            let mut kv = std::collections::HashMap::new();
+            for a in &args[3..] {
+                if let Some((k, v)) = a.split_once('=') {
+                    kv.insert(k.to_string(), v.to_string());
+                }
+            }
+            let get = |k: &str, d: &str| kv.get(k).cloned().unwrap_or(d.to_string());
+            let mut mdk = MdkConfig::default();
+            mdk.epoch_snapshot_retention = get("retention", "5").parse().unwrap();
+            mdk.max_past_epochs = get("maxpast", "5").parse().unwrap();
+            let cfg = drivers::RandCfg {
+                seed: get("seed", "1").parse().unwrap(),
+                histories: get("n", "5").parse().unwrap(),
+                steps: get("steps", "30").parse().unwrap(),
+                backend: get("backend", "mem"),
+                regime: get("regime", "causal"),
+                mdk,
+                profile: get("profile", "core"),
+            };
+            let f = std::fs::File::create(out).expect("create out");
+            let mut r = Recorder { out: Box::new(std::io::BufWriter::new(f)), i: 0 };
+            drivers::run_random(&cfg, &mut r);
+        }
+        _ => eprintln!("usage: harness smoke [mem|sql]"),
+    }
+}
